@@ -60,7 +60,7 @@ func (r *Slice) GetIndices(length int) (start, stop, step, slicelength int, err 
 	if r.Step == None {
 		step = 1
 	} else {
-		step, err = IndexInt(r.Step)
+		step, err = IndexIntClip(r.Step)
 		if err != nil {
 			return
 		}
@@ -90,7 +90,7 @@ func (r *Slice) GetIndices(length int) (start, stop, step, slicelength int, err 
 	if r.Start == None {
 		start = defstart
 	} else {
-		start, err = IndexInt(r.Start)
+		start, err = IndexIntClip(r.Start)
 		if err != nil {
 			return
 		}
@@ -117,7 +117,7 @@ func (r *Slice) GetIndices(length int) (start, stop, step, slicelength int, err 
 	if r.Stop == None {
 		stop = defstop
 	} else {
-		stop, err = IndexInt(r.Stop)
+		stop, err = IndexIntClip(r.Stop)
 		if err != nil {
 			return
 		}
